@@ -269,11 +269,20 @@ func newSupplyOracle(s *chain.Sim) *supplyOracle {
 // ledgerChains drives `n` random chains of `blocks` blocks; perBlock is called
 // after each applied block; the abstracted blocks are compared with the model.
 func ledgerChains(c *fw.Ctx, nChains, blocks int, perBlock func(s *chain.Sim, parent consensus.State, p chain.BlockPlan, au consensus.ApplyUpdate, rp blockReplay), perChain func(s *chain.Sim)) {
+	ledgerChainsModes(c, ledgerModes, 0, nChains, blocks, perBlock, perChain)
+}
+
+// monthlyModes: networks whose block interval makes the Foundation subsidy fall due every 1-3 blocks (the real
+// schedule, 4380 blocks, never comes round in a generated chain), with Foundation address updates — including the
+// waiver to the void address — landing on subsidy heights.
+var monthlyModes = []string{"mixed-monthly", "v2-monthly", "legacy-monthly"}
+
+func ledgerChainsModes(c *fw.Ctx, modes []string, salt int64, nChains, blocks int, perBlock func(s *chain.Sim, parent consensus.State, p chain.BlockPlan, au consensus.ApplyUpdate, rp blockReplay), perChain func(s *chain.Sim)) {
 	res := c.Res
 	var ops, outs []string
 	for i := 0; i < nChains; i++ {
-		mode := ledgerModes[i%len(ledgerModes)]
-		seed := c.Seed*1000003 + int64(i)
+		mode := modes[i%len(modes)]
+		seed := c.Seed*1000003 + int64(i) + salt
 		s := chain.NewSim(rand.New(rand.NewSource(seed)), mode)
 		ab := chain.NewAbstractor(s)
 		res.Count("chains:" + mode)
@@ -338,6 +347,11 @@ func runC01(c *fw.Ctx) {
 				// the legacy ephemeral window is outside the claim only for ephemeral parents; the generator
 				// always claims true values, so conservation must hold here too
 			}
+			checkBlockC01(c, s, o, parent, p, au, rp)
+		},
+		func(s *chain.Sim) { o = newSupplyOracle(s) })
+	ledgerChainsModes(c, monthlyModes, 500009, c.Budget(9, 300), c.Budget(40, 60),
+		func(s *chain.Sim, parent consensus.State, p chain.BlockPlan, au consensus.ApplyUpdate, rp blockReplay) {
 			checkBlockC01(c, s, o, parent, p, au, rp)
 		},
 		func(s *chain.Sim) { o = newSupplyOracle(s) })
